@@ -511,9 +511,10 @@ Section Step.
     post_split; try solve [fin]. rewrite F3. reflexivity.
   Qed.
 
-  Lemma parseRuleMemoize_spec r s : I c s -> res_spec c s (parseRuleMemoize wrap r s).
+  Lemma parseRuleMemoize_spec r s : I c s -> res_spec c s (parseRuleMemoize c wrap r s).
   Proof.
     intros HI. unfold parseRuleMemoize.
+    destruct (negb (q_memo_expected (cQ c)) && maxFailInvert s); [apply parseRule_spec; exact HI|].
     destruct (getMemoized (KRule (r_name r)) s) as [res|] eqn:Hg.
     - cbn. eapply memo_hit_spec; eauto.
     - unfold bind, modify, ret. pose proof (parseRule_spec r s HI) as Hr.
@@ -687,7 +688,9 @@ OLD*)
       destruct (rstack s); reflexivity. }
     destruct (memo_active c s) as [active s'|pv s'|]; [subst s'|subst s'|contradiction].
     2: apply PostP_refl; auto.
-    destruct (active && (q_memo_label (cQ c) || negb (scope_writes e))); [|apply parseExpr_spec; auto].
+    cbv zeta.
+    destruct (active && (q_memo_label (cQ c) || negb (scope_writes e)) && (q_memo_expected (cQ c) || negb (maxFailInvert s)));
+      [|apply parseExpr_spec; auto].
     destruct (getMemoized (KExpr (node_id e)) s) as [res|] eqn:Hg.
     - pose proof (memo_hit_spec _ _ _ HI Hg) as Hh.
       destruct (q_memo_nocharge (cQ c)); [exact Hh|].
